@@ -108,7 +108,7 @@ class Run(object):
         self.violations = {}       # key -> {'what','count','witnesses':[...]}
         self.inconclusive = []
         self.extra = {}
-        self.t0 = time.time()
+        self.t0 = time.monotonic()
         self.deadline = None
 
     # ---- random streams ------------------------------------------------
@@ -160,7 +160,7 @@ class Run(object):
             self.inconclusive.append(why)
 
     def out_of_time(self):
-        return self.deadline is not None and time.time() > self.deadline
+        return self.deadline is not None and time.monotonic() > self.deadline
 
     # ---- fragments (shards) --------------------------------------------
     def to_fragment(self):
@@ -256,7 +256,7 @@ class Run(object):
                 lines.append('INCONCLUSIVE property=%s %s' % (self.pid, why))
         else:
             code = EXIT_HELD
-        wall = time.time() - self.t0
+        wall = time.monotonic() - self.t0
         coverage = {
             'evaluations': self.evaluations,
             'distinct_nontrivial': distinct,
@@ -309,10 +309,10 @@ def run_sharded(pid, tier, seed, nshards, shard_timeout):
             procs.append((i, frag, log, subprocess.Popen(
                 cmd, cwd=VERIF_DIR, env=env, stdout=log,
                 stderr=subprocess.STDOUT)))
-        deadline = time.time() + shard_timeout
+        deadline = time.monotonic() + shard_timeout
         for i, frag, log, p in procs:
             try:
-                p.wait(timeout=max(1, deadline - time.time()))
+                p.wait(timeout=max(1, deadline - time.monotonic()))
             except subprocess.TimeoutExpired:
                 p.kill()
                 p.wait()
